@@ -24,8 +24,8 @@ func vhTC(w *cert.VWorld, tv hotstuff.View, label hotstuff.View, cnt int, foreig
 // symbolic view label, 5 QC for an unknown block. tcSel: 0 none, 1 honest TC, 2 TC with q-1
 // signatures, 3 TC with one signature over another view, 4 TC whose label differs from the signed view.
 func VH_C07_syncinfo(n int, rule int, qcSel int, tcSel int) {
-	r := vhNewReplica(n, rule, hotstuff.ID(2), vsymbolic())
-	w := r.w
+	r := VNewReplica(n, rule, hotstuff.ID(2), vsymbolic())
+	w := r.W
 	q := hotstuff.QuorumSize(n)
 	gen := hotstuff.GetGenesis()
 	gqc := hotstuff.NewQuorumCert(nil, 0, gen.Hash())
@@ -39,15 +39,15 @@ func VH_C07_syncinfo(n int, rule int, qcSel int, tcSel int) {
 	// arbitrary state: current view, high QC = genesis QC or the QC of Bh
 	cur := hotstuff.View(nondetU64("current-view"))
 	vassume(cur >= 1 && cur < 1<<40)
-	r.states.VSetView(cur)
+	r.States.VSetView(cur)
 	highIsBh := nondetBool("high-qc-is-bh")
 	if highIsBh {
-		r.states.VSetHighQC(w.HonestQC(Bh, q, false))
+		r.States.VSetHighQC(w.HonestQC(Bh, q, false))
 		vassume(cur > vh) // the replica left the view of its high QC
 	}
-	hq0 := r.states.HighQC().View()
-	ht0 := r.states.HighTC().View()
-	c0 := r.states.CommittedBlock().View()
+	hq0 := r.States.HighQC().View()
+	ht0 := r.States.HighTC().View()
+	c0 := r.States.CommittedBlock().View()
 	// the message
 	si := hotstuff.NewSyncInfo()
 	qcEvidence := false // a valid QC for a block of view >= cur
@@ -90,14 +90,14 @@ func VH_C07_syncinfo(n int, rule int, qcSel int, tcSel int) {
 		tcValid = label == tv
 		tcEvidence = tcValid && tv >= cur
 	}
-	r.sync.OnNewView(hotstuff.NewViewMsg{ID: 3, SyncInfo: si, FromNetwork: true})
-	r.drain()
-	view1 := r.states.View()
+	r.Sync.OnNewView(hotstuff.NewViewMsg{ID: 3, SyncInfo: si, FromNetwork: true})
+	r.Drain()
+	view1 := r.States.View()
 	vobserve("advanced", uint64(view1-cur))
 	vassert(view1 == cur || view1 == cur+1, "view-moves-by-at-most-one")
-	vassert(r.states.HighQC().View() >= hq0, "high-qc-view-never-decreases")
-	vassert(r.states.HighTC().View() >= ht0, "high-tc-view-never-decreases")
-	vassert(r.states.CommittedBlock().View() >= c0, "committed-view-never-decreases")
+	vassert(r.States.HighQC().View() >= hq0, "high-qc-view-never-decreases")
+	vassert(r.States.HighTC().View() >= ht0, "high-tc-view-never-decreases")
+	vassert(r.States.CommittedBlock().View() >= c0, "committed-view-never-decreases")
 	if view1 == cur+1 {
 		vcover("advanced")
 		if rule != 1 {
@@ -105,14 +105,14 @@ func VH_C07_syncinfo(n int, rule int, qcSel int, tcSel int) {
 		} else {
 			vassert(tcEvidence, "view-advances-only-on-valid-certificate-for-this-or-later-view")
 		}
-		vassert(len(r.views) == 1 && r.views[0].View == view1, "view-change-signalled-exactly-once")
+		vassert(len(r.Views) == 1 && r.Views[0].View == view1, "view-change-signalled-exactly-once")
 	} else {
-		vassert(len(r.views) == 0, "no-view-change-event-without-advance")
+		vassert(len(r.Views) == 0, "no-view-change-event-without-advance")
 	}
 	if !tcValid || (rule != 1 && qcSel != 0 && !qcValid) {
 		vcover("rejected")
 		vassert(view1 == cur, "invalid-certificates-do-not-advance-the-view")
-		vassert(r.states.HighQC().View() == hq0, "invalid-certificates-do-not-change-high-qc")
+		vassert(r.States.HighQC().View() == hq0, "invalid-certificates-do-not-change-high-qc")
 	}
 	// conversely, valid evidence for this or a later view moves the replica on (all present
 	// certificates valid)
@@ -122,8 +122,8 @@ func VH_C07_syncinfo(n int, rule int, qcSel int, tcSel int) {
 		vassert(view1 == cur+1, "valid-evidence-advances-the-view")
 	}
 	if rule != 1 && tcValid && qcValid && qcSel >= 2 && v1 > hq0 {
-		vassert(r.states.HighQC().View() == v1, "valid-newer-qc-becomes-high-qc")
+		vassert(r.States.HighQC().View() == v1, "valid-newer-qc-becomes-high-qc")
 	}
 	// the high QC stored always verifies
-	vassert(w.Auth.VerifyQuorumCert(r.states.HighQC()) == nil, "stored-high-qc-verifies")
+	vassert(w.Auth.VerifyQuorumCert(r.States.HighQC()) == nil, "stored-high-qc-verifies")
 }
